@@ -164,6 +164,7 @@ impl<'de, R: Reader<'de>> Parser<R> {
             // an escape-free literal is never rejected for any other reason than the grammar
             (str_end(old(self).read.data(), old(self).read.idx() as int).is_some()
                 && !has_bs(old(self).read.data(), old(self).read.idx() as int, str_end(old(self).read.data(), old(self).read.idx() as int).unwrap())) ==> res.is_ok(),
+            final(self).read.idx() >= old(self).read.idx(),
 //@after /let start = self.read.index\(\);/
         let ghost s = self.read.data();
         let ghost i0 = start as int;
@@ -247,7 +248,51 @@ impl<'de, R: Reader<'de>> Parser<R> {
                 forall|j: int| i0 <= j < self.read.idx() ==> plain_char(#[trigger] s[j]),
             decreases s.len() - self.read.idx(),
 //@end
+
+//@extract file=src/parser.rs impl="Parser<R>" fn=check_invalid_utf8
+//@subst /invalid_utf8\(self\.read\.as_u8_slice\(\), invalid\)/ => invalid_utf8_err(self.read.as_u8_slice(), invalid)
+//@sig
+        requires old(self).pinv(),
+        ensures final(self).pinv(), final(self).same_doc(old(self)), final(self).same_cache(old(self)), final(self).read.idx() == old(self).read.idx(),
+            // "true" means: invalid UTF-8 lies before the reader AND it is tolerated (the caller repairs the text)
+            res.is_ok() && res.unwrap() ==> allowed,
+            allowed ==> res.is_ok(),
+//@end
+
+//@extract file=src/parser.rs impl="Parser<R>" fn=parse_str
+//@subst /String::from_utf8_lossy\(buf\.as_ref\(\)\)\.into_owned\(\)/ => lossy_string(buf.as_slice())
+//@subst /String::from_utf8_lossy\(slice\)\.into_owned\(\)/ => lossy_string(slice)
+//@subst /repr\.into_bytes\(\)/ => string_into_bytes(repr) #all
+//@subst /unsafe \{ from_utf8_unchecked\(buf\.as_slice\(\)\) \}/ => as_str(buf.as_slice())
+//@subst /unsafe \{ from_utf8_unchecked\(buf\) \}/ => as_str(buf.as_slice())
+//@subst /unsafe \{ from_utf8_unchecked\(slice\) \}/ => as_str(slice)
+//@sig
+        requires old(self).pinv(),
+        ensures final(self).pinv(), final(self).same_doc(old(self)),
+            // acceptance: the grammar's literals, the reader just after the closing quote
+            res.is_ok() ==> str_end(old(self).read.data(), old(self).read.idx() as int) == Some(final(self).read.idx() as int),
+            str_end(old(self).read.data(), old(self).read.idx() as int).is_none() ==> res.is_err(),
+            // a borrowed result has no escape and is exactly the bytes between the quotes
+            (res.is_ok() && res.unwrap() is Borrowed) ==> !has_bs(old(self).read.data(), old(self).read.idx() as int, final(self).read.idx() as int)
+                && ref_bytes(res.unwrap()) == old(self).read.data().subrange(old(self).read.idx() as int, final(self).read.idx() - 1),
+            // "borrowed from the input when and only when it contains no escape" — in the default configuration; with
+            // utf8_lossy a literal whose text had to be repaired is handed out as a copy
+            (res.is_ok() && !old(self).cfg.utf8_lossy) ==> ((res.unwrap() is Borrowed) <==> !has_bs(old(self).read.data(), old(self).read.idx() as int, final(self).read.idx() as int)),
+            final(self).read.idx() >= old(self).read.idx(),
+//@end
 }
+
+//@extract file=src/parser.rs enum=Reference
+pub open spec fn ref_bytes<'b, 'c>(r: Reference<'b, 'c, str>) -> Seq<u8> {
+    match r { Reference::Borrowed(t) => str_bytes(t), Reference::Copied(t) => str_bytes(t) }
+}
+// String::from_utf8_lossy(..).into_owned() / String::into_bytes / error constructor (std, src/error.rs): opaque
+#[verifier::external_body]
+pub fn lossy_string(b: &[u8]) -> (r: String) { unimplemented!() }
+#[verifier::external_body]
+pub fn string_into_bytes(s: String) -> (r: Vec<u8>) { unimplemented!() }
+#[verifier::external_body]
+pub fn invalid_utf8_err(json: &[u8], index: usize) -> (e: Error) { unimplemented!() }
 
 } // verus!
 fn main() {}
